@@ -80,7 +80,8 @@ def gen(rng, tier):
                 ml = ["M.abf %s 1 x0 %s %s %s 2 1 %d 1 0 0 0 %s" % (name, fbits(-3.0), fbits(3.0), fbits(w[0]), 1 if apply_b else 0, fbits(0.0))]
             else:
                 conf, ml = bias_conf(rng, kind, name, cvs, [w[int(c[1:])] for c in cvs], tsf)
-            biases.append({"kind": kind, "name": name, "cvs": cvs, "tsf": tsf, "conf": conf, "ml": ml, "par": PARAMS.pop(name, None)})
+            biases.append({"kind": kind, "name": name, "cvs": cvs, "tsf": tsf, "conf": conf, "ml": ml, "par": PARAMS.pop(name, None),
+                           "nonbiasing": kind == "histogram" or (kind == "abf" and not apply_b)})
         maxn = max(b["tsf"] for b in biases)
         nsteps = 3 * maxn + 2 + rng.randint(0, 4)
         traj = []
@@ -90,11 +91,15 @@ def gen(rng, tier):
                 cur[i] += rng.uniform(-0.8, 0.8)
             traj.append((list(cur), [rng.uniform(-4, 4) for _ in range(ncv)]))
         split = rng.randint(1, nb - 1)
+        # the first step of the run need not be 0 (nor a multiple of the time-step factors)
+        it0 = 0 if (k % 3) != 1 else rng.randint(1, 9)
         groups = {"AB": biases, "A": biases[:split], "B": biases[split:]}
         lines = []
         marks = {}
         for g in ("AB", "A", "B"):
             lines += ["m.new %d" % ncv, "m.opt tfloop 1", cfg(cvconf)] + [cfg(b["conf"]) for b in groups[g]] + mcv
+            if it0:
+                lines.append("m.opt it %d" % it0)
             for b in groups[g]:
                 lines += b["ml"]
             marks[g] = []
@@ -106,6 +111,7 @@ def gen(rng, tier):
                 lines.append("m.forces")
         cases.append({"lines": lines, "meta": {"ncv": ncv, "biases": [(b["kind"], b["cvs"], b["tsf"]) for b in biases], "split": split, "w": w,
                                                 "par": [b["par"] for b in biases], "traj": [t_[0] for t_ in traj],
+                                                "nonbiasing": [b["nonbiasing"] for b in biases], "it0": it0,
                                                 "nsteps": nsteps, "marks": marks},
                       "nontrivial": sum(1 for b in biases if b["kind"] != "histogram") >= 2})
     return cases
@@ -135,24 +141,28 @@ def oracle(case, out):
     # impulse: a group made only of stateless restraints must apply sum_b [t % n_b == 0] n_b F_b(x(t)) (closed forms)
     stateless = ("harmonic", "linear", "walls")
     groups = {"AB": list(range(len(m["biases"]))), "A": list(range(m["split"])), "B": list(range(m["split"], len(m["biases"])))}
+    nonb = m.get("nonbiasing", [False] * len(m["biases"]))
     for g, idx in groups.items():
-        if not all(m["biases"][j][0] in stateless for j in idx):
+        # closed forms exist when every bias of the group is a stateless restraint or is declared non-biasing
+        # (histogram, applyBias off): the latter contribute neither force nor energy
+        if not all(m["biases"][j][0] in stateless or nonb[j] for j in idx):
             continue
         for t in range(m["nsteps"]):
             exp = [0.0] * m["ncv"]
+            e_exp = 0.0
             for j in idx:
                 kind, cvs, n = m["biases"][j]; par = m["par"][j]
-                if t % n != 0:
+                if nonb[j] or (t + m.get("it0", 0)) % n != 0:
                     continue
                 for q, cvn in enumerate(cvs):
                     a = int(cvn[1:]); x = m["traj"][t][a]; w = m["w"][a]
                     if kind == "harmonic":
-                        fq = -par[1] / (w * w) * (x - par[2][q])
+                        fq = -par[1] / (w * w) * (x - par[2][q]); e_exp += 0.5 * par[1] / (w * w) * (x - par[2][q]) ** 2
                     elif kind == "linear":
-                        fq = -par[1] / w
+                        fq = -par[1] / w; e_exp += par[1] / w * (x - par[2][q])
                     else:
                         d = (x - par[2][q]) if x < par[2][q] else ((x - par[3][q]) if x > par[3][q] else 0.0)
-                        fq = -par[1] / (w * w) * d
+                        fq = -par[1] / (w * w) * d; e_exp += 0.5 * par[1] / (w * w) * d * d
                     exp[a] += n * fq
             ln = m["marks"][g][t]
             for a in range(m["ncv"]):
@@ -160,6 +170,11 @@ def oracle(case, out):
                 if fv is None or abs(fv[2] - exp[a]) > 1e-9 * max(1.0, abs(exp[a])):
                     viol.append("step %d atom %d: applied force %r, but biases awake at this step times their time-step factors give %r (impulse not conserved)" % (t, a, fv, exp[a]))
                     return viol
+            ev = vals(out, ln, "energy")
+            if ev is None or abs(ev[0] - e_exp) > 1e-9 * max(1.0, abs(e_exp)):
+                viol.append("step %d: energy reported to the engine %r, but the biases that are awake and biasing at this step (%s) have energies summing to %r"
+                            % (t, ev, ", ".join("%s/%d" % (m["biases"][j][0], m["biases"][j][2]) + ("(non-biasing)" if nonb[j] else "") for j in idx), e_exp))
+                return viol
     for t in range(m["nsteps"]):
         e = {}; f = {}
         for g in ("AB", "A", "B"):
